@@ -88,7 +88,7 @@ impl World {
 
     /// waits for the RoomModified event of that room (the instance publishes one per accepted definition change)
     async fn await_room_event(&mut self, room: &Uid) -> Option<Arc<Room>> {
-        let deadline = tokio::time::Instant::now() + std::time::Duration::from_millis(3000);
+        let deadline = tokio::time::Instant::now() + std::time::Duration::from_millis(15000);
         loop {
             match tokio::time::timeout_at(deadline, self.events.recv()).await {
                 Ok(Ok(Event::RoomModified(r))) => { if &r.id == room { return Some(r); } }
@@ -102,7 +102,7 @@ impl World {
     /// applies one definition entry through a real room mutation at the current clock; true = accepted
     async fn define(&mut self, r: u64, ev: &Ev) -> bool {
         let room = self.rooms[r as usize - 1].id;
-        let mut p = Parameters::default();
+        let mut p = P::default();
         p.add("room_id", b64(&room)).unwrap();
         let text = match ev {
             Ev::Admin(k, _, b) => { p.add("k", b64(&self.keys[k])).unwrap(); format!(r#"mutate {{ sys.Room{{ id:$room_id admin:[{{verif_key:$k enabled:{} }}] }} }}"#, b) }
@@ -115,7 +115,7 @@ impl World {
             }
             _ => return false,
         };
-        let res = self.app.mutate_raw(&text, Some(p)).await;
+        let res = mutate_retry(&self.app, &text, Some(p)).await;
         if res.is_ok() {
             let snap = self.await_room_event(&room).await;
             if snap.is_some() { self.rooms[r as usize - 1].snapshot = snap; }
@@ -125,6 +125,37 @@ impl World {
             self.rooms[r as usize - 1].evs.push(ev.clone());   // the model skips refused entries the same way (Rights.build)
             false
         }
+    }
+}
+
+
+/// string parameters of a request, rebuilt for every attempt (Parameters is not Clone)
+#[derive(Default, Clone)]
+struct P(Vec<(String, String)>);
+impl P {
+    fn add(&mut self, k: &str, v: String) -> Result<(), ()> { self.0.push((k.to_string(), v)); Ok(()) }
+    fn build(&self) -> Parameters { let mut p = Parameters::default(); for (k, v) in &self.0 { p.add(k, v.clone()).unwrap(); } p }
+}
+
+/// a write that fails because SQLite is busy (heavy machine load) was not applied: it is repeated.
+/// Any other failure is a verdict and is returned.
+fn is_busy<T>(r: &Result<T, discret::verif_hooks::database::Error>) -> bool {
+    match r { Err(e) => { let s = format!("{:?} {}", e, e); s.contains("DatabaseBusy") || s.contains("database is locked") } Ok(_) => false }
+}
+async fn mutate_retry(app: &GraphDatabaseService, text: &str, p: Option<P>) -> Result<discret::verif_hooks::database::mutation_query::MutationQuery, discret::verif_hooks::database::Error> {
+    let mut n = 0;
+    loop {
+        let r = app.mutate_raw(text, p.as_ref().map(|x| x.build())).await;
+        if is_busy(&r) && n < 40 { n += 1; tokio::time::sleep(std::time::Duration::from_millis(250)).await; continue; }
+        return r;
+    }
+}
+async fn delete_retry(app: &GraphDatabaseService, text: &str, p: Option<P>) {
+    let mut n = 0;
+    loop {
+        let r = app.delete(text, p.as_ref().map(|x| x.build())).await;
+        if is_busy(&r) && n < 40 { n += 1; tokio::time::sleep(std::time::Duration::from_millis(250)).await; continue; }
+        r.unwrap(); return;
     }
 }
 
@@ -140,7 +171,13 @@ async fn build_world(tag: u64, profiles: &[Profile], with_data: bool) -> World {
     verif_clock::set(t0);
     let events = EventService::new();
     let rx = events.subcribe().await;
-    let (app, me, _) = GraphDatabaseService::start("c08", MODEL, &random32(), &random32(), path.clone(), &Configuration::default(), events.clone()).await.unwrap();
+    let mut tries = 0;
+    let (app, me, _) = loop {
+        match GraphDatabaseService::start("c08", MODEL, &random32(), &random32(), path.clone(), &Configuration::default(), events.clone()).await {
+            Ok(x) => break x,
+            Err(e) => { tries += 1; if tries > 20 { panic!("instance does not start: {}", e); } tokio::time::sleep(std::time::Duration::from_millis(300)).await; }
+        }
+    };
     let mut keys = HashMap::new();
     keys.insert(1u64, me.clone());
     keys.insert(2u64, random32().to_vec());
@@ -152,7 +189,7 @@ async fn build_world(tag: u64, profiles: &[Profile], with_data: bool) -> World {
         w.set_clock(d);
         let g1 = 10 * r + 1; let g2 = 10 * r + 2;
         let two = *prof == Profile::MemberTwoGroups;
-        let mut p = Parameters::default();
+        let mut p = P::default();
         p.add("me", b64(&w.me)).unwrap(); p.add("kh", b64(&w.keys[&2])).unwrap(); p.add("k3", b64(&w.keys[&3])).unwrap();
         let kh_admin = matches!(prof, Profile::AdminOnly | Profile::FormerAdmin);
         let kh_user = matches!(prof, Profile::Member | Profile::Former | Profile::MemberTwoGroups);
@@ -162,7 +199,7 @@ async fn build_world(tag: u64, profiles: &[Profile], with_data: bool) -> World {
         let ua1 = if kh_uadmin { "user_admin:[{verif_key:$kh}]" } else { "" };
         let grp2 = if two { r#",{ name:"g2" rights:[{entity:"ns.Pet" mutate_self:true mutate_all:false}] users:[{verif_key:$kh}] }"# } else { "" };
         let text = format!(r#"mutate {{ sys.Room{{ {} authorisations:[{{ name:"g1" rights:[{{entity:"*" mutate_self:true mutate_all:true}}] {} {} }}{}] }} }}"#, admin, users1, ua1, grp2);
-        let res = w.app.mutate_raw(&text, Some(p)).await.unwrap();
+        let res = mutate_retry(&w.app, &text, Some(p)).await.unwrap();
         let ri_ = &res.mutate_entities[0];
         let room_id = ri_.node_to_mutate.id;
         let auths = ri_.sub_nodes.get("authorisations").unwrap();
@@ -196,9 +233,9 @@ async fn build_world(tag: u64, profiles: &[Profile], with_data: bool) -> World {
             let room_id = w.rooms[ri].id;
             let d = BASE - 9 * DAY + ri as i64 * 10;
             w.set_clock(d);
-            let mut p = Parameters::default();
+            let mut p = P::default();
             p.add("room_id", b64(&room_id)).unwrap();
-            let res = w.app.mutate_raw(r#"mutate { ns.Person{ room_id:$room_id name:"p" pets:[{name:"a"},{name:"b"}] } }"#, Some(p)).await.unwrap();
+            let res = mutate_retry(&w.app, r#"mutate { ns.Person{ room_id:$room_id name:"p" pets:[{name:"a"},{name:"b"}] } }"#, Some(p)).await.unwrap();
             let pe = &res.mutate_entities[0];
             let pn = pe.node_to_mutate.node.as_ref().unwrap();
             w.ent_person = pn._entity.clone();
@@ -213,21 +250,21 @@ async fn build_world(tag: u64, profiles: &[Profile], with_data: bool) -> World {
             for e in &pe.edge_insertions { w.edges.push(EdgeInfo { src: person_idx, dest: e.dest, cdate: e.cdate }); }
             // one more row that is then deleted, and one reference that is removed: tombstones of this room
             w.set_clock(w.del_day + ri as i64 * 10);
-            let mut p = Parameters::default();
+            let mut p = P::default();
             p.add("room_id", b64(&room_id)).unwrap();
-            let res = w.app.mutate_raw(r#"mutate { ns.Person{ room_id:$room_id name:"gone" pets:[{name:"c"}] } }"#, Some(p)).await.unwrap();
+            let res = mutate_retry(&w.app, r#"mutate { ns.Person{ room_id:$room_id name:"gone" pets:[{name:"c"}] } }"#, Some(p)).await.unwrap();
             let gone = res.mutate_entities[0].node_to_mutate.id;
             let gone_pet = res.mutate_entities[0].sub_nodes.get("pets").unwrap()[0].node_to_mutate.id;
-            let mut p = Parameters::default();
+            let mut p = P::default();
             p.add("id", b64(&gone)).unwrap(); p.add("pid", b64(&gone_pet)).unwrap();
-            w.app.delete("delete { ns.Person { $id pets[$pid] } }", Some(p)).await.unwrap();
-            let mut p = Parameters::default();
+            delete_retry(&w.app, "delete { ns.Person { $id pets[$pid] } }", Some(p)).await;
+            let mut p = P::default();
             p.add("id", b64(&gone_pet)).unwrap();
-            w.app.delete("delete { ns.Pet { $id } }", Some(p)).await.unwrap();
+            delete_retry(&w.app, "delete { ns.Pet { $id } }", Some(p)).await;
         }
         // a row that is in no room
         w.set_clock(BASE - 9 * DAY + 500);
-        let res = w.app.mutate_raw(r#"mutate { ns.Pet{ name:"private" } }"#, None).await.unwrap();
+        let res = mutate_retry(&w.app, r#"mutate { ns.Pet{ name:"private" } }"#, None).await.unwrap();
         let pe = &res.mutate_entities[0];
         let n = pe.node_to_mutate.node.as_ref().unwrap();
         w.nodes.push(NodeInfo { id: pe.node_to_mutate.id, room: None, entity: n._entity.clone(), mdate: n.mdate });
@@ -513,14 +550,14 @@ async fn main() {
       push_case(&mut out, "directed-other-key", coq, s, &profs); finish(w).await; }
 
     // ---- generated connections ----
-    let worlds = scale(40, 400);
+    let worlds = scale(14, 150);
     for wi in 0..worlds {
         let mut r = rng.fork();
         tag += 1;
         let nrooms = 2 + r.below(3) as usize;
         let profs: Vec<Profile> = (0..nrooms).map(|i| if i == 0 && r.chance(2, 3) { Profile::Member } else { *r.pick(&PROFILES) }).collect();
         let mut w = build_world(tag, &profs, true).await;
-        for si in 0..3 {
+        for si in 0..8 {
             let len = 12 + r.below(20) as usize;
             let evs = gen_session(&mut r, &w, len);
             // later connections start later than everything that happened so far (dated entries must not go back)
